@@ -59,8 +59,20 @@ def space(tier):
     return [(p, ERRORS) for p in p2] + [(p, base) for p in p3], skipped, "depth<=2 x 18 errors, depth 3 x the 9 base errors"
 
 
-def key_of(err, path):
-    return f"{err}@{G.key_of(path, 2)}"
+# constructors that put a list / set literal directly in argument position of a call
+COLLECTION_ARGUMENT = ("setelem", "vararg")
+
+
+def key_of(err, path, status):
+    """class of the failing input: outcome category (accepted / crash), injected error, and the
+    innermost two constructors -- except for the one shape with a structural name:
+    `collection-argument>binopl` = the error is (inside) the left operand of a binary operator that
+    is (inside) an element of a list / set literal passed directly as a call argument"""
+    cat = "accepted" if status == "ok" else "crash"
+    for i, c in enumerate(path):
+        if c in COLLECTION_ARGUMENT and "binopl" in path[i + 1:]:
+            return f"{cat}:{err}@collection-argument>binopl"
+    return f"{cat}:{err}@{G.key_of(path, 2)}"
 
 
 def run(chk):
@@ -108,7 +120,7 @@ def run(chk):
             what = f"program with the definite static error `{name}` in context {'>'.join(path)} is accepted and compiled to a code object"
         else:
             what = f"compiler {r['status']} (no diagnostic) on the definite static error `{name}` in context {'>'.join(path)}: {str(r.get('panic') or r.get('stderr'))[:160]}"
-        chk.violation(key_of(name, path), {"path": list(path), "error": name, "src": src, "twin": G.program(path, G.TWIN_HOLE),
+        chk.violation(key_of(name, path, r["status"]), {"path": list(path), "error": name, "src": src, "twin": G.program(path, G.TWIN_HOLE),
                                            "result": {k: v for k, v in r.items() if k != "warns"}}, what)
     n = len(cases) + discarded
     chk.coverage.update({
